@@ -126,7 +126,30 @@ impl crate::hist::StepOracle for UpToLimitProbe {
                             c.post.now - n.last_update
                         ),
                     });
-                } else if r.committed {
+                } else if !r.committed {
+                    // any other failure: differential — the same deposit with the bank's deposit limit lifted.
+                    // If that one commits, the cap is what made the up-to-limit deposit fail.
+                    let mut t2 = c.post.clone();
+                    crate::world::edit_bank(&mut t2, &c.w.banks[b].key, |bk| bk.config.deposit_limit = u64::MAX);
+                    let r2 = act::apply(c.w, &mut t2, &a);
+                    if r2.committed {
+                        let n = rf::bank_nums(c.post, &c.w.banks[b]);
+                        let bank = crate::world::bank(c.post, &c.w.banks[b].key);
+                        out.push(crate::mc::Violation {
+                            clause: "C17.up_to_limit_never_capacity_fails".into(),
+                            detail: format!(
+                                "after {:?}: {:?} failed with {} and succeeds once the deposit limit is lifted (deposit limit {}, deposits {:.6}): the cap made an up-to-limit deposit fail",
+                                c.a,
+                                a,
+                                crate::svm::err_name(r.code),
+                                bank.config.deposit_limit,
+                                rf::qf64(&n.deposits())
+                            ),
+                        });
+                    } else {
+                        tags.push("probe_fails_without_cap_too");
+                    }
+                } else {
                     tags.push("probe_ok");
                     let n = rf::bank_nums(&t, &c.w.banks[b]);
                     let bank = crate::world::bank(&t, &c.w.banks[b].key);
